@@ -53,7 +53,7 @@ CLAIMED = {
     "C14": ("backward data-flow (victims and reported costs derive from records just removed from the tracking structures), must-follow path rule (a removed resident key is nominated, "
             "re-tracked or returned on every path), must-pass rule for the cost parameter of on_admit, edge-dominance of insertion-capable calls in on_access by a tracked-test, "
             "paired-structure agreement, LRU/FIFO definition shapes",
-            "PARTIAL: seven structural clauses over the built-in policies (arc, clock, fifo, lru, sieve, slru, tinylfu; random in the thorough tier's full-feature configuration): nominated keys and reported "
+            "PARTIAL: seven structural clauses over the built-in policies (arc, clock, fifo, lru, random, sieve, slru, tinylfu): nominated keys and reported "
             "costs come from records the policy just stopped tracking; a resident key leaves the tracking structures only by nomination, re-tracking or on_remove/clear; on_admit records the "
             "given cost on every path (1 demonstrated known finding: FIFO; ARC/Clock/SLRU repaired); on_access never starts tracking; paired structures and the LruList total move together; "
             "LRU moves on access and evicts from the back, FIFO never reorders. Which victim is picked (segment sizing, ARC adaptation, sketch estimates, clock hand) and 'frees at least the "
